@@ -189,6 +189,17 @@ class C16:
             alt = name.count('+') + name.count('#') - name[1:].count('-') - name[1:].count('b')
             return name[0].upper() + ('+' * alt if alt > 0 else '-' * (-alt))
 
+        class _Skip(Exception):
+            pass
+
+        def replica_of(j):
+            """A fresh object equal to the model of pool object j (reference path). If even that raises, it is a violation."""
+            try:
+                return kp.AgnosticPitch(*model[j])
+            except Exception as e:
+                add_v('construct-raised', 'construct-raised/replica', log.seq, 'a pitch object for ' + repr(list(model[j])), type(e).__name__, name=model[j][0])
+                raise _Skip()
+
         def check_pool(seq, opkind, touched):
             for j, o in enumerate(pool):
                 got = state(o)
@@ -201,195 +212,198 @@ class C16:
                         model[j] = (got[0], got[1])
 
         for n, op in enumerate(plan['ops']):
-            kind = op['op']
-            touched = None
-            if kind in ('exp', 'exp_am', 'read', 'tr', 'reimp', 'int_exp', 'set', 'bad_set'):
-                if not pool:
-                    continue
-                touched = op['o'] % len(pool)
-            if kind == 'imp':
-                s = op['s']
-                try:
-                    o = importer.import_pitch(s)
-                except Exception as e:
-                    seq = log.emit('client', 'imp', s, 'raised ' + type(e).__name__)
-                    add_v('import-raised', 'import-raised', seq, 'a pitch object', type(e).__name__, spelling=s)
-                    continue
-                seq = log.emit('client', 'imp', s, state(o))
-                exp_model = self._model_of_spelling(s)
-                if state(o) != list(exp_model):
-                    add_v('import-wrong', 'import-wrong' + ('/after-bad-call' if after_fault else ''), seq, list(exp_model), state(o), spelling=s)
-                pool.append(o)
-                model.append((o.name, o.octave) if state(o)[0] != '<unreadable>' else exp_model)
-                if abs(exp_model[0].count('+') - exp_model[0].count('-')) == 3:
-                    bump(probes, 'triple_alteration')
-                if exp_model[1] in (-1, 9):
-                    bump(probes, 'octave_extreme')
-                if after_fault:
-                    bump(probes, 'bad_call_then_valid')
-                after_fault = False
-            elif kind == 'new':
-                try:
-                    o = kp.AgnosticPitch(op['name'], op['oct'])
-                except Exception as e:
-                    seq = log.emit('client', 'new', [op['name'], op['oct']], 'raised ' + type(e).__name__)
-                    add_v('construct-raised', 'construct-raised', seq, 'a pitch object', type(e).__name__, name=op['name'])
-                    continue
-                seq = log.emit('client', 'new', [op['name'], op['oct']], state(o))
-                if state(o) != [op['name'], op['oct']]:
-                    add_v('construct-wrong', 'construct-wrong', seq, [op['name'], op['oct']], state(o))
-                pool.append(o)
-                model.append((op['name'], op['oct']))
-                bump(probes, 'direct_construct_export')
-            elif kind == 'exp':
-                o = pool[touched]
-                want = spell_from_name(*model[touched])
-                try:
-                    got = exporter.export_pitch(o)
-                except Exception as e:
-                    got = 'raised ' + type(e).__name__
-                seq = log.emit('client', 'exp', touched, got)
-                if want is not None and got != want:
-                    rep = touched in first_export
-                    add_v('export-wrong', 'export-wrong/' + ('repeat' if rep else 'first'), seq, want, got,
-                          pool_index=touched, model=list(model[touched]), first=first_export.get(touched))
-                if touched in first_export:
-                    if exported_at[touched] < n - 1:
-                        bump(probes, 'export_repeated')
-                    if got != first_export[touched]:
-                        add_v('export-not-repeatable', 'export-not-repeatable', seq, first_export[touched], got, pool_index=touched)
-                else:
-                    first_export[touched] = got
-                exported_at[touched] = n
-            elif kind == 'int_exp':
-                o = pool[touched]
-                replica = kp.AgnosticPitch(*model[touched])
-                inj = intr.injector(kernpy_src())
-                total = inj.count_events(lambda: exporter.export_pitch(replica))
-                if total <= 0:
-                    continue
-                k = 1 + op['k_u'] % total
-                delivered, out = inj.run(lambda: exporter.export_pitch(o), k, op['payload'])
-                seq = log.emit('fault', 'int_exp', [touched, k, op['payload']], [delivered, out[0]])
-                bump(faults, 'interrupt_' + op['payload'])
-                if delivered:
-                    bump(probes, 'interrupt_delivered')
-                # the interrupted call only has to raise; everything else is checked strictly below
-                after_fault = True
-                kind = 'interrupted-exp'
-            elif kind == 'exp_am':
-                o = pool[touched]
-                fresh = kp.AgnosticPitch(*model[touched])
-                got = self._call(lambda: american.export_pitch(o))
-                ref = self._call(lambda: kp.AmericanPitchExporter().export_pitch(fresh))
-                seq = log.emit('client', 'exp_am', touched, got)
-                if got != ref:
-                    add_v('second-reader-differs', 'second-reader-differs', seq, ref, got, pool_index=touched)
-            elif kind == 'read':
-                o = pool[touched]
-                fresh = kp.AgnosticPitch(*model[touched])
-                w = op['what']
-                fn = {'chroma': lambda p: p.get_chroma(), 'acc': lambda p: p.accidentals(), 'hash': lambda p: hash(p) == hash(kp.AgnosticPitch(*model[touched])),
-                      'eq': lambda p: (p == kp.AgnosticPitch(*model[touched]), p != kp.AgnosticPitch(*model[touched])), 'str': lambda p: str(p),
-                      'lt': lambda p: (p < pool[0], p > pool[0])}[w]
-                got = self._call(lambda: fn(o))
-                ref = self._call(lambda: fn(fresh)) if w != 'lt' else got
-                seq = log.emit('client', 'read:' + w, touched, got)
-                if got != ref:
-                    add_v('read-differs-from-fresh', f'read-differs-from-fresh/{w}', seq, ref, got, pool_index=touched)
-            elif kind == 'tr':
-                o = pool[touched]
-                fresh = kp.AgnosticPitch(*model[touched])
-                from kernpy.core.transposer import IntervalsByName
-                iv = IntervalsByName[op['iv']]
-                ref = self._call(lambda: state(kp.AgnosticPitch.to_transposed(fresh, iv, op['dir'])))
-                try:
-                    r = kp.AgnosticPitch.to_transposed(o, iv, op['dir'])
-                    got = state(r)
-                except Exception as e:
-                    r, got = None, 'raised ' + type(e).__name__
-                seq = log.emit('client', 'tr', [touched, op['iv'], op['dir']], got)
-                if got != ref:
-                    add_v('transposed-differs-from-fresh', 'transposed-differs-from-fresh', seq, ref, got, pool_index=touched)
-                if r is not None:
-                    if r is o:
-                        add_v('transposed-not-new-object', 'transposed-not-new-object', seq, 'a new object', 'the argument itself')
-                    elif len(pool) < 48:
-                        pool.append(r)
-                        model.append((got[0], got[1]))
-            elif kind == 'reimp':
-                want = spell_from_name(*model[touched])
-                if want is None:
-                    continue
-                try:
-                    o2 = importer.import_pitch(want)
-                    got = state(o2)
-                except Exception as e:
-                    o2, got = None, 'raised ' + type(e).__name__
-                seq = log.emit('client', 'reimp', [touched, want], got)
-                bump(probes, 'reimport')
-                if got != list(model[touched]):
-                    add_v('import-wrong', 'import-wrong/reimport' + ('/after-bad-call' if after_fault else ''), seq, list(model[touched]), got, spelling=want)
-                if o2 is not None and len(pool) < 48:
-                    pool.append(o2)
-                    model.append((o2.name, o2.octave))
-                after_fault = False
-            elif kind == 'set':
-                o = pool[touched]
-                want = [op['name'] if op['what'] in ('name', 'both') else model[touched][0], op['oct'] if op['what'] in ('octave', 'both') else model[touched][1]]
-                try:
-                    if op['what'] in ('name', 'both'):
-                        o.name = op['name']
-                    if op['what'] in ('octave', 'both'):
-                        o.octave = op['oct']
-                    got = state(o)
-                except Exception as e:
-                    got = 'raised ' + type(e).__name__
-                seq = log.emit('client', 'set', [touched, op['what'], op['name'], op['oct']], got)
-                bump(probes, 'edited_through_setters')
-                if got != want:
-                    add_v('setter-wrong', 'setter-wrong', seq, want, got, pool_index=touched)
-                if isinstance(got, list):
-                    model[touched] = (got[0], got[1])
-                # every alias of this object in the pool is the same object: keep their models in step
-                for j, other in enumerate(pool):
-                    if other is o:
-                        model[j] = model[touched]
-                        first_export.pop(j, None)
-                        exported_at.pop(j, None)
-            elif kind == 'bad_set':
-                o = pool[touched]
-                try:
-                    setattr(o, op['attr'], op['value'])
-                    got = 'accepted'
-                except Exception as e:
-                    got = 'raised ' + type(e).__name__
-                seq = log.emit('fault', 'bad_set', [touched, op['attr'], op['value']], got)
-                bump(faults, 'rejected_edit')
-                after_fault = True
-                if got == 'accepted':
-                    # not C16's business whether this value is rejected; follow the object
-                    st_now = state(o)
-                    for j, other in enumerate(pool):
-                        if other is o and st_now[0] != '<unreadable>':
-                            model[j] = (st_now[0], st_now[1])
-                            first_export.pop(j, None)
-                            exported_at.pop(j, None)
-                # a rejected edit must leave the object as it was: checked by the pool invariant below and by the next export
-            elif kind == 'bad_imp':
-                got = self._call(lambda: state(importer.import_pitch(op['s'])))
-                seq = log.emit('fault', 'bad_imp', op['s'], got)
-                bump(faults, 'invalid_spelling')
-                after_fault = True
-            elif kind == 'bad_new':
-                got = self._call(lambda: state(kp.AgnosticPitch(op['name'], op['oct'])))
-                seq = log.emit('fault', 'bad_new', [op['name'], op['oct']], got)
-                bump(faults, 'invalid_constructor_args')
-                after_fault = True
-            else:
-                raise ValueError(f'unknown op {kind}')
-            check_pool(log.seq, kind, touched)
+          try:
+              kind = op['op']
+              touched = None
+              if kind in ('exp', 'exp_am', 'read', 'tr', 'reimp', 'int_exp', 'set', 'bad_set'):
+                  if not pool:
+                      continue
+                  touched = op['o'] % len(pool)
+              if kind == 'imp':
+                  s = op['s']
+                  try:
+                      o = importer.import_pitch(s)
+                  except Exception as e:
+                      seq = log.emit('client', 'imp', s, 'raised ' + type(e).__name__)
+                      add_v('import-raised', 'import-raised', seq, 'a pitch object', type(e).__name__, spelling=s)
+                      continue
+                  seq = log.emit('client', 'imp', s, state(o))
+                  exp_model = self._model_of_spelling(s)
+                  if state(o) != list(exp_model):
+                      add_v('import-wrong', 'import-wrong' + ('/after-bad-call' if after_fault else ''), seq, list(exp_model), state(o), spelling=s)
+                  pool.append(o)
+                  model.append((o.name, o.octave) if state(o)[0] != '<unreadable>' else exp_model)
+                  if abs(exp_model[0].count('+') - exp_model[0].count('-')) == 3:
+                      bump(probes, 'triple_alteration')
+                  if exp_model[1] in (-1, 9):
+                      bump(probes, 'octave_extreme')
+                  if after_fault:
+                      bump(probes, 'bad_call_then_valid')
+                  after_fault = False
+              elif kind == 'new':
+                  try:
+                      o = kp.AgnosticPitch(op['name'], op['oct'])
+                  except Exception as e:
+                      seq = log.emit('client', 'new', [op['name'], op['oct']], 'raised ' + type(e).__name__)
+                      add_v('construct-raised', 'construct-raised', seq, 'a pitch object', type(e).__name__, name=op['name'])
+                      continue
+                  seq = log.emit('client', 'new', [op['name'], op['oct']], state(o))
+                  if state(o) != [op['name'], op['oct']]:
+                      add_v('construct-wrong', 'construct-wrong', seq, [op['name'], op['oct']], state(o))
+                  pool.append(o)
+                  model.append((op['name'], op['oct']))
+                  bump(probes, 'direct_construct_export')
+              elif kind == 'exp':
+                  o = pool[touched]
+                  want = spell_from_name(*model[touched])
+                  try:
+                      got = exporter.export_pitch(o)
+                  except Exception as e:
+                      got = 'raised ' + type(e).__name__
+                  seq = log.emit('client', 'exp', touched, got)
+                  if want is not None and got != want:
+                      rep = touched in first_export
+                      add_v('export-wrong', 'export-wrong/' + ('repeat' if rep else 'first'), seq, want, got,
+                            pool_index=touched, model=list(model[touched]), first=first_export.get(touched))
+                  if touched in first_export:
+                      if exported_at[touched] < n - 1:
+                          bump(probes, 'export_repeated')
+                      if got != first_export[touched]:
+                          add_v('export-not-repeatable', 'export-not-repeatable', seq, first_export[touched], got, pool_index=touched)
+                  else:
+                      first_export[touched] = got
+                  exported_at[touched] = n
+              elif kind == 'int_exp':
+                  o = pool[touched]
+                  replica = replica_of(touched)
+                  inj = intr.injector(kernpy_src())
+                  total = inj.count_events(lambda: exporter.export_pitch(replica))
+                  if total <= 0:
+                      continue
+                  k = 1 + op['k_u'] % total
+                  delivered, out = inj.run(lambda: exporter.export_pitch(o), k, op['payload'])
+                  seq = log.emit('fault', 'int_exp', [touched, k, op['payload']], [delivered, out[0]])
+                  bump(faults, 'interrupt_' + op['payload'])
+                  if delivered:
+                      bump(probes, 'interrupt_delivered')
+                  # the interrupted call only has to raise; everything else is checked strictly below
+                  after_fault = True
+                  kind = 'interrupted-exp'
+              elif kind == 'exp_am':
+                  o = pool[touched]
+                  fresh = replica_of(touched)
+                  got = self._call(lambda: american.export_pitch(o))
+                  ref = self._call(lambda: kp.AmericanPitchExporter().export_pitch(fresh))
+                  seq = log.emit('client', 'exp_am', touched, got)
+                  if got != ref:
+                      add_v('second-reader-differs', 'second-reader-differs', seq, ref, got, pool_index=touched)
+              elif kind == 'read':
+                  o = pool[touched]
+                  fresh = replica_of(touched)
+                  w = op['what']
+                  fn = {'chroma': lambda p: p.get_chroma(), 'acc': lambda p: p.accidentals(), 'hash': lambda p: hash(p) == hash(kp.AgnosticPitch(*model[touched])),
+                        'eq': lambda p: (p == kp.AgnosticPitch(*model[touched]), p != kp.AgnosticPitch(*model[touched])), 'str': lambda p: str(p),
+                        'lt': lambda p: (p < pool[0], p > pool[0])}[w]
+                  got = self._call(lambda: fn(o))
+                  ref = self._call(lambda: fn(fresh)) if w != 'lt' else got
+                  seq = log.emit('client', 'read:' + w, touched, got)
+                  if got != ref:
+                      add_v('read-differs-from-fresh', f'read-differs-from-fresh/{w}', seq, ref, got, pool_index=touched)
+              elif kind == 'tr':
+                  o = pool[touched]
+                  fresh = replica_of(touched)
+                  from kernpy.core.transposer import IntervalsByName
+                  iv = IntervalsByName[op['iv']]
+                  ref = self._call(lambda: state(kp.AgnosticPitch.to_transposed(fresh, iv, op['dir'])))
+                  try:
+                      r = kp.AgnosticPitch.to_transposed(o, iv, op['dir'])
+                      got = state(r)
+                  except Exception as e:
+                      r, got = None, 'raised ' + type(e).__name__
+                  seq = log.emit('client', 'tr', [touched, op['iv'], op['dir']], got)
+                  if got != ref:
+                      add_v('transposed-differs-from-fresh', 'transposed-differs-from-fresh', seq, ref, got, pool_index=touched)
+                  if r is not None:
+                      if r is o:
+                          add_v('transposed-not-new-object', 'transposed-not-new-object', seq, 'a new object', 'the argument itself')
+                      elif len(pool) < 48:
+                          pool.append(r)
+                          model.append((got[0], got[1]))
+              elif kind == 'reimp':
+                  want = spell_from_name(*model[touched])
+                  if want is None:
+                      continue
+                  try:
+                      o2 = importer.import_pitch(want)
+                      got = state(o2)
+                  except Exception as e:
+                      o2, got = None, 'raised ' + type(e).__name__
+                  seq = log.emit('client', 'reimp', [touched, want], got)
+                  bump(probes, 'reimport')
+                  if got != list(model[touched]):
+                      add_v('import-wrong', 'import-wrong/reimport' + ('/after-bad-call' if after_fault else ''), seq, list(model[touched]), got, spelling=want)
+                  if o2 is not None and len(pool) < 48:
+                      pool.append(o2)
+                      model.append((o2.name, o2.octave))
+                  after_fault = False
+              elif kind == 'set':
+                  o = pool[touched]
+                  want = [op['name'] if op['what'] in ('name', 'both') else model[touched][0], op['oct'] if op['what'] in ('octave', 'both') else model[touched][1]]
+                  try:
+                      if op['what'] in ('name', 'both'):
+                          o.name = op['name']
+                      if op['what'] in ('octave', 'both'):
+                          o.octave = op['oct']
+                      got = state(o)
+                  except Exception as e:
+                      got = 'raised ' + type(e).__name__
+                  seq = log.emit('client', 'set', [touched, op['what'], op['name'], op['oct']], got)
+                  bump(probes, 'edited_through_setters')
+                  if got != want:
+                      add_v('setter-wrong', 'setter-wrong', seq, want, got, pool_index=touched)
+                  if isinstance(got, list):
+                      model[touched] = (got[0], got[1])
+                  # every alias of this object in the pool is the same object: keep their models in step
+                  for j, other in enumerate(pool):
+                      if other is o:
+                          model[j] = model[touched]
+                          first_export.pop(j, None)
+                          exported_at.pop(j, None)
+              elif kind == 'bad_set':
+                  o = pool[touched]
+                  try:
+                      setattr(o, op['attr'], op['value'])
+                      got = 'accepted'
+                  except Exception as e:
+                      got = 'raised ' + type(e).__name__
+                  seq = log.emit('fault', 'bad_set', [touched, op['attr'], op['value']], got)
+                  bump(faults, 'rejected_edit')
+                  after_fault = True
+                  if got == 'accepted':
+                      # not C16's business whether this value is rejected; follow the object
+                      st_now = state(o)
+                      for j, other in enumerate(pool):
+                          if other is o and st_now[0] != '<unreadable>':
+                              model[j] = (st_now[0], st_now[1])
+                              first_export.pop(j, None)
+                              exported_at.pop(j, None)
+                  # a rejected edit must leave the object as it was: checked by the pool invariant below and by the next export
+              elif kind == 'bad_imp':
+                  got = self._call(lambda: state(importer.import_pitch(op['s'])))
+                  seq = log.emit('fault', 'bad_imp', op['s'], got)
+                  bump(faults, 'invalid_spelling')
+                  after_fault = True
+              elif kind == 'bad_new':
+                  got = self._call(lambda: state(kp.AgnosticPitch(op['name'], op['oct'])))
+                  seq = log.emit('fault', 'bad_new', [op['name'], op['oct']], got)
+                  bump(faults, 'invalid_constructor_args')
+                  after_fault = True
+              else:
+                  raise ValueError(f'unknown op {kind}')
+              check_pool(log.seq, kind, touched)
 
+          except _Skip:
+            continue
         kinds = [o['op'] for o in plan['ops']]
         nontrivial = probes.get('export_repeated', 0) > 0
         return {'digest': log.digest(), 'events': log.seq, 'faults': faults, 'probes': probes,
